@@ -75,7 +75,12 @@ class Tracer:
 
     def _after(self):
         if self.after is not None:
-            self.after(self.events[-1])
+            ev = self.events[-1]
+            try:
+                self.after(ev)
+            except BaseException:
+                ev["struck"] = True  # an injected failure surfaced while this event was delivered
+                raise
 
     # -- called by generated code ---------------------------------------------
     def enter(self, fn):
@@ -117,16 +122,28 @@ class Tracer:
             self.decl_attempt(a.fn, var, a)
         raise ModelNameError(a.fn, var)
 
+    def _supersede(self, a):
+        """A completion that was under way (``return v`` whose value event is recorded) is replaced:
+        by another return or by an exception raised in a finally clause / a context manager's exit.
+        The earlier value was never returned."""
+        for ev in reversed(self.events):
+            if ev["act"] == a.id and ev["k"] == "value" and not ev.get("superseded") and not ev.get("struck"):
+                ev["superseded"] = True
+            elif ev["act"] == a.id and ev["k"] in ("enter",):
+                break
+
     def value(self, a, v):
         self._touch(a)
         if self.hook is not None:
             v = self.hook(a.fn, "#value", v, a, self)
+        self._supersede(a)
         self._ev(a, "value", "#value", canon(v), v)
         self._after()
         return v
 
     def fall(self, a):
         self._touch(a)
+        self._supersede(a)
         self._ev(a, "value", "#value", None, None)
         self.events[-1]["fall"] = True
         self._after()
@@ -135,6 +152,7 @@ class Tracer:
         self._touch(a)
         # (the exception object itself is not kept: its traceback would keep
         # frames -- and suspended generators -- alive)
+        self._supersede(a)
         self._ev(a, "error", "#error", canon(e), None)
         self._after()
 
